@@ -35,7 +35,6 @@ import json
 import os
 import pickle
 import re
-import select
 import shutil
 import signal
 import sys
@@ -49,6 +48,7 @@ LEVEL = "model_checking"
 KINDS = ("LZ", "WC", "TC", "RUN")
 TOOL = 4
 OP_TIMEOUT = 90
+PLAN_QUICK = (3, 4)   # max history length: all 24 ops / the 12 ops of one program
 
 
 # ------------------------------------------------------------------ ops ---------------------------------------------
@@ -299,102 +299,71 @@ def exec_op(tasks, op, scratch, observe=True):
             shutil.rmtree(d, ignore_errors=True)
 
 
-# ------------------------------------------------------------------ forking -----------------------------------------
-def forked(fn, timeout):
-    """run fn() in a forked child, return its (picklable) result; ("dead", why) if it died or timed out"""
-    r, w = os.pipe()
-    sys.stdout.flush()
-    sys.stderr.flush()
-    pid = os.fork()
-    if pid == 0:
-        try:
-            os.close(r)
-            signal.alarm(0)
-            try:
-                res = ("ok", fn())
-            except BaseException:  # noqa
-                res = ("err", traceback.format_exc())
-            data = pickle.dumps(res)
-            with os.fdopen(w, "wb") as f:
-                f.write(data)
-        finally:
-            os._exit(0)
-    os.close(w)
-    chunks = []
-    deadline = time.time() + timeout
-    dead = None
-    while True:
-        left = deadline - time.time()
-        if left <= 0:
-            dead = "timeout"
-            break
-        rl, _, _ = select.select([r], [], [], min(left, 5))
-        if rl:
-            b = os.read(r, 1 << 20)
-            if not b:
-                break
-            chunks.append(b)
-    os.close(r)
-    if dead:
-        try:
-            os.kill(pid, signal.SIGKILL)
-        except OSError:
-            pass
-    os.waitpid(pid, 0)
-    if dead:
-        return ("dead", dead)
-    if not chunks:
-        return ("dead", "no result")
-    return pickle.loads(b"".join(chunks))
-
-
-def need(res, what):
-    if res[0] != "ok":
-        raise RuntimeError(f"{what}: forked execution failed: {res[1]}")
-    return res[1]
+# ------------------------------------------------------------------ reaching a state --------------------------------
+def replay_ops(history, scratch, observe_last=False):
+    """real execution of a whole history from clear_cache() and fresh task objects -> (tasks, last observation)"""
+    tasks = clean_start()
+    obs = None
+    for i, op in enumerate(history):
+        obs = exec_op(tasks, op, scratch, observe=observe_last and i == len(history) - 1)
+    return tasks, obs
 
 
 def reference(op, scratch):
-    """the op as a one-op history after clear_cache(), in a pristine forked process"""
-    def go():
-        tasks = clean_start()
-        obs = exec_op(tasks, op, scratch)
-        obs["key"] = state_key(tasks)[0]
-        return obs
-    return need(forked(go, OP_TIMEOUT + 30), f"reference {op}")
+    """the op as a one-op history after clear_cache()"""
+    tasks, obs = replay_ops([op], scratch, observe_last=True)
+    obs["key"] = state_key(tasks)[0]
+    return obs
 
 
 def linear(history, scratch):
-    """the whole history in one pristine forked process; observation of the last op + final state key"""
-    def go():
-        tasks = clean_start()
-        obs = None
-        for i, op in enumerate(history):
-            obs = exec_op(tasks, op, scratch, observe=(i == len(history) - 1))
-        k = state_key(tasks)
-        return dict(obs=obs, key=k[0], coarse=k[1], desc=k[2])
-    return need(forked(go, (OP_TIMEOUT + 5) * (len(history) + 1)), f"linear {history}")
+    """the whole history, really executed; observation of the last op + final state key"""
+    tasks, obs = replay_ops(history, scratch, observe_last=True)
+    k = state_key(tasks)
+    return dict(obs=obs, key=k[0], coarse=k[1], desc=k[2])
 
 
-def expand(history, expected_key, ops, scratch):
-    """replay `history` once, then fork per op: [(op, obs, key, coarse)]"""
-    def go():
-        tasks = clean_start()
-        for op in history:
-            exec_op(tasks, op, scratch, observe=False)
-        k = state_key(tasks)[0]
-        if expected_key is not None and k != expected_key:
-            raise RuntimeError(f"replaying {history} reached state {k}, recorded {expected_key}: not deterministic")
-        out = []
-        for op in ops:
-            def one(op=op):
-                obs = exec_op(tasks, op, scratch)
-                kk = state_key(tasks)
-                return obs, kk[0], kk[1]
-            obs, key, coarse = need(forked(one, OP_TIMEOUT + 30), f"{history} + {op}")
-            out.append((op, obs, key, coarse))
-        return out
-    return need(forked(go, (OP_TIMEOUT + 35) * (len(history) + len(ops) + 1)), f"expand {history}")
+def snapshot(tasks):
+    from pydra.engine.workflow import Workflow
+    return copy.deepcopy((Workflow._constructed_cache, tasks))
+
+
+def restore(snap):
+    from pydra.engine.workflow import Workflow
+    cache, tasks = copy.deepcopy(snap)
+    Workflow._constructed_cache = cache
+    return tasks
+
+
+def expand(history, expected_key, ops, scratch, stats):
+    """Really replay `history`, then apply every op to that state: [(op, obs, key, coarse)].
+    Getting back to the state for the next op: a real replay of the history if it has no RUN (a few ms); otherwise a
+    deepcopy of (class-level cache, task objects) taken after the real replay -- the copy must have the same canonical
+    key (full structural dump) as the original."""
+    tasks, _ = replay_ops(history, scratch)
+    k = state_key(tasks)[0]
+    if expected_key is not None and k != expected_key:
+        raise RuntimeError(f"replaying {history} reached state {k}, recorded {expected_key}: not deterministic")
+    has_run = any(o[0] == "RUN" for o in history)
+    snap = None
+    if has_run:
+        snap = snapshot(tasks)
+        tasks = restore(snap)
+        if state_key(tasks)[0] != k:
+            raise RuntimeError(f"a deepcopy of the state after {history} has a different canonical key")
+    out = []
+    for i, op in enumerate(ops):
+        if i:
+            if has_run:
+                tasks = restore(snap)
+                stats["rewind_by_copy"] = stats.get("rewind_by_copy", 0) + 1
+            else:
+                tasks, _ = replay_ops(history, scratch)
+                stats["rewind_by_replay"] = stats.get("rewind_by_replay", 0) + 1
+        obs = exec_op(tasks, op, scratch)
+        kk = state_key(tasks)
+        out.append((op, obs, kk[0], kk[1]))
+    return out
 
 
 # ------------------------------------------------------------------ oracle ------------------------------------------
@@ -443,7 +412,7 @@ def work(part, chunk):
     news = []
     for key, hist in chunk:
         part.traces += 1  # the replayed representative history
-        for op, obs, k2, coarse in expand(hist, key, _OPS, part.scratch):
+        for op, obs, k2, coarse in expand(hist, key, _OPS, part.scratch, part.coverage):
             h2 = hist + [op]
             part.transitions += 1
             part.traces += 1
@@ -470,31 +439,21 @@ def work(part, chunk):
     fn.write_bytes(pickle.dumps(news))
 
 
-def run(ctx):
+def search(ctx, label, ops, maxlen, scratch):
+    """layered BFS over canonical states with the op alphabet `ops`, histories of length <= maxlen"""
     from vt.par import pmap
-    from vt.runner import HarnessError
     global _OPS, _OUT
-    maxlen = 6 if ctx.thorough else 4
-    mon = install_monitor()
-    _OPS = all_ops()
-    scratch = ctx.scratch / "main"
-    scratch.mkdir()
-    os.environ["PYDRA_HASH_CACHE"] = str(scratch / "hashcache")
-    for op in _OPS:
-        r = reference(op, scratch)
-        if r["raised"]:
-            raise HarnessError(f"the one-op reference history {op} raised {r['raised']}: {r.get('error')}")
-        _REF[canon(op)] = r
+    _OPS = ops
     empty = linear([], scratch)
     seen = {empty["key"]: []}
     coarse_seen = {empty["coarse"]}
     frontier = [(empty["key"], [])]
     layers = []
     for depth in range(maxlen):
-        _OUT = ctx.scratch / f"layer{depth}"
+        _OUT = ctx.scratch / f"layer-{label}-{depth}"
         _OUT.mkdir()
         t0 = time.time()
-        pmap(ctx, work, frontier, chunk=max(1, min(8, len(frontier) // (ctx.nproc * 3) or 1)))
+        pmap(ctx, work, frontier, chunk=max(1, min(6, len(frontier) // (ctx.nproc * 4) or 1)))
         cand = []
         for f in sorted(_OUT.iterdir()):
             cand += pickle.loads(f.read_bytes())
@@ -511,35 +470,65 @@ def run(ctx):
         frontier = nxt
         if not frontier:
             break
-    ctx.states = len(seen)
-    # determinism: the first and the last recorded history, twice each
-    longest = max(seen.values(), key=lambda h: (len(h), canon(h)))
-    for h in ([_OPS[0]], longest):
-        a, b = linear(h, scratch), linear(h, scratch)
-        if canon([a["obs"], a["key"]]) != canon([b["obs"], b["key"]]):
-            raise HarnessError(f"history {h} is not deterministic")
-        want = [k for k, v in seen.items() if v == h]
-        if want and a["key"] != want[0]:
-            raise HarnessError(f"history {h} reached {a['key']} instead of the recorded state {want[0]}")
-    ctx.coverage["layers"] = layers
-    ctx.coverage["ops"] = len(_OPS)
-    ctx.coverage["max_history_length"] = maxlen
-    ctx.coverage["states_by_key_structure_and_memo_only"] = len(coarse_seen)
+    return dict(alphabet=label, ops=len(ops), max_history_length=maxlen, states=len(seen),
+                states_by_key_structure_and_memo_only=len(coarse_seen), layers=layers,
+                fixed_point=not frontier), seen
+
+
+def run(ctx):
+    from vt.runner import HarnessError
+    from vt import tasks_c30 as T
+    mon = install_monitor()
+    ops = all_ops()
+    scratch = ctx.scratch / "main"
+    scratch.mkdir()
+    os.environ["PYDRA_HASH_CACHE"] = str(scratch / "hashcache")
+    for op in ops:
+        r = reference(op, scratch)
+        if r["raised"]:
+            raise HarnessError(f"the one-op reference history {op} raised {r['raised']}: {r.get('error')}")
+        _REF[canon(op)] = r
+    nv = len(T.VALUES)
+    # (label, op alphabet, max history length).  Ops on different programs only meet through the shared type hash, so
+    # the longest histories are spent inside one program (both value sets, all six ops).
+    full, single = (5, 6) if ctx.thorough else (PLAN_QUICK)
+    plan = [("both-programs", ops, full)]
+    for p in range(len(T.PROGRAMS)):
+        plan.append((f"program-{p}", [o for o in ops if o[1] // nv == p], single))
+    searches = []
+    for label, alphabet, maxlen in plan:
+        info, seen = search(ctx, label, alphabet, maxlen, scratch)
+        searches.append(info)
+        ctx.states += info["states"]
+        # determinism: the first and the last recorded history, twice each
+        longest = max(seen.values(), key=lambda h: (len(h), canon(h)))
+        for h in ([alphabet[0]], longest):
+            a, b = linear(h, scratch), linear(h, scratch)
+            if canon([a["obs"], a["key"]]) != canon([b["obs"], b["key"]]):
+                raise HarnessError(f"history {h} is not deterministic")
+            want = [k for k, v in seen.items() if v == h]
+            if want and a["key"] != want[0]:
+                raise HarnessError(f"history {h} reached {a['key']} instead of the recorded state {want[0]}")
+    ctx.coverage["searches"] = searches
     ctx.coverage["branch_monitor"] = "sys.monitoring LINE events on Workflow.construct" if mon else \
         "unavailable (Workflow.construct no longer has the try/else + loop shape)"
-    ctx.coverage["unexpanded_states_at_bound"] = len(frontier)
     for k in list(ctx.coverage):
         if k.startswith("examples_"):
             ctx.coverage[k] = sorted(ctx.coverage[k], key=lambda s: (len(s), s))[:4]
-    ctx.rule = (f"every history of <= {maxlen} ops over 24 ops (4 task objects x {{LZ{{x}}, LZ{{y}}, LZ{{x,y}}, "
-                "Workflow.construct, task.construct, run}) from an empty cache, explored breadth-first up to state "
-                "equality; each transition is the real op executed in a fork of a process that replayed the "
-                "representative history; non-trivial = the last op went through the exact-match or the superset branch "
-                "of Workflow.construct (or, for a run of the nested program, its inner construction did)")
+    ctx.rule = (f"every history of <= {full} ops over all 24 ops (4 task objects x {{LZ{{x}}, LZ{{y}}, LZ{{x,y}}, "
+                f"Workflow.construct, task.construct, run}}) and every history of <= {single} ops over the 12 ops of each "
+                "single program, from an empty cache, explored breadth-first up to state equality; the last op of every "
+                "history is compared with its one-op reference; non-trivial = the last op went through the exact-match or "
+                "the superset branch of Workflow.construct (or, for a run of the nested program, its inner construction "
+                "did)")
     ctx.assumptions += [
         "two histories are merged only if the cache key structure, a structural dump of every cached Workflow (inputs, "
         "node task inputs, every attribute of every node State, output wiring) and the per-task memo aliasing agree; "
         "anything outside these objects (module globals of pydra, files) is assumed not to carry construction state",
+        "every state is reached by really executing its representative history; to apply the next sibling op the state "
+        "is re-created by re-executing the history when it has no run, otherwise from a deepcopy of (class-level cache, "
+        "task objects), whose canonical key is asserted equal to the original's; every violation is re-confirmed by a "
+        "plain linear execution of the whole history",
         "observing a returned workflow (graph() on a deepcopy) does not change the state; checked by comparing the state "
         "reached by the observation-free replay of every representative history with the recorded key",
         "every run uses a fresh cache_root, so it really constructs and executes (result caching is C09/C11's subject)",
